@@ -43,7 +43,7 @@ def read_client_conf():
 
     def resolve_location(item: str, value: str) -> str:
         nonlocal path
-        sp = value.split(':')
+        sp = value.split(':', 1)  # (a location may contain colons itself)
         if len(sp) == 1:
             scheme = value
             loc = ''
